@@ -25,6 +25,8 @@ Violated(r) ==
   \cup UNION {If(C_UploadableOnlyIfW(c, a, s, t), "UploadableOnlyIf." \o c) : c \in {"data", "age", "rate", "optin"}}
   \cup UNION {If(C_SentOnlyIfW(c, a, s, t), "SentOnlyIf." \o c) : c \in {"future", "optin"}}
   \cup If(C_OffChangesNothing(a, s, t) /\ ((ExactlyOff(Gov(s)) /\ (a.op \in {"run", "collect", "protate"} \/ (a.op = "pinc" /\ s.proc.st # "open"))) => r.same.data), "OffChangesNothing")
+  \cup If(C_BodyXRate(a, s, t, ToSet(r.posted)), "UploadableOnlyIf.rate.body")
+  \cup If(C_BodyXSame(a, s, t, ToSet(r.posted)), "BodyXIsReportX")
   \cup If(C_OtherBehavesLocal(a, s, t), "OtherBehavesLocal")
   \cup If(C_DisabledStaysSilent(a, s, t), "DisabledStaysSilent")
   \cup If(a.op = "set" =>
